@@ -429,6 +429,14 @@ fn main() {
         s.gen("term-sparkline", s.n(1500, 60_000), sparkline_event, |ev, cx| {
             check_event(ev, cx, Sinks { file: false, otlp: false, term: true })
         });
+        // artifacts of the libFuzzer target `value_to_sinks` (engine E6) are replayed through the same entry
+        s.manual("fuzz-artifact", Vec::<Vec<u8>>::new(), |bytes, cx| {
+            cx.nontrivial(true);
+            match c13::fuzz_entry(bytes) {
+                Ok(()) => Ok(()),
+                Err(f) => cx.fail(f.sig, format!("{}; decoded case: {}", f.msg, vcore::serde_json::to_string(&c13::fuzz_decode(bytes)).unwrap_or_default())),
+            }
+        });
         sinks::shutdown();
     })
 }
